@@ -1,42 +1,26 @@
-import MosnVerif.Model.DownstreamBackoff
-import MosnVerif.Lemmas.Downstream.ProcErr
-/-! proxy9: `terminate during the back-off` — the Retry pass with a pending local reply creates no upstream attempt -/
+import MosnVerif.Lemmas.Downstream.Attempts10
+import MosnVerif.Lemmas.Downstream.Parked
+/-!
+proxy9 → proxy10: the back-off sleep of `doRetry` as a state of the machine.  What the state looks like, what an asynchronous
+`TerminateStream` delivered there does (label `terminate`, regenerated step program), and what the wake-up (`work` in the
+back-off: the regenerated `doRetry` + `processError`) does when something landed during the sleep: no upstream attempt is
+created for a denied request, for a client that is gone, after the global timeout.
+-/
 namespace MosnVerif.Model.Downstream
 open MosnVerif.Gen.ProxyPhase MosnVerif.Gen.ProxyReason MosnVerif.Gen.ProxyRetry
 
-/-- on the machine's own states (invariant) the extension is the machine: no local reply is pending in the Retry phase -/
-theorem workB_eq_work (c : Cfg) (ar aq : Nat) (s : S) (h : Inv c ar aq s) : workB c s = work c s := by
-  unfold workB
-  by_cases hr : (s.running && s.phase == .Retry) = true
-  · rw [if_pos hr]
-    simp only [Bool.and_eq_true, beq_iff_eq] at hr
-    have hcl : s.cleaned = false := by
-      have := h.k0; simp only [K0] at this; rw [hr.1] at this; simpa using this
-    have hnd : s.direct = false := by
-      cases hd : s.direct with
-      | false => rfl
-      | true =>
-        have h1 : s.phase = .WaitNotify := ((h.k7 hcl).2 hd).1
-        rw [hr.2] at h1; cases h1
-    have hbw : bodyWait s = false := by simp [bodyWait, hr.2]
-    simp [doRetryB, hnd, work, hr.1, hr.2, hbw]
-  · rw [if_neg hr]
-
-/-- what the back-off state looks like (facts of the invariant used below) -/
+/-- what the back-off state looks like (facts of the invariant) -/
 theorem backoff_facts (c : Cfg) (ar aq : Nat) (s : S) (h : Inv c ar aq s) (hb : backoff s = true) :
-    s.cleaned = false ∧ s.direct = false ∧ s.setupRetry = false ∧ s.up = some none ∧ s.perTry = false ∧
-    (s.urr = false → s.upReset = false) ∧ c.oneway = false ∧ s.pass = 0 ∧ s.rs.isSome = true := by
+    s.cleaned = false ∧ s.setupRetry = false ∧ s.up = some none ∧ s.perTry = false ∧
+    (s.upReset = true → s.globalExpired = true ∧ s.urr = true) ∧
+    (s.urr = true → s.upReset = true ∨ s.direct = true ∨ s.globalExpired = true) ∧
+    c.oneway = false ∧ s.pass = 0 ∧ s.rs.isSome = true ∧ liveCount s.streams = 0 ∧ s.respStarted = false ∧
+    (s.direct = true → s.urr = true ∧ s.upReset = false ∧ s.resp.isSome = true ∧ s.global = false) := by
   simp only [backoff, Bool.and_eq_true, beq_iff_eq] at hb
   have hcl : s.cleaned = false := by
     have := h.k0; simp only [K0] at this; rw [hb.1] at this; simpa using this
   have h7 := h.k7 hcl
   have h26 := h.k26 hcl hb.2
-  have hnd : s.direct = false := by
-    cases hd : s.direct with
-    | false => rfl
-    | true =>
-      have h1 : s.phase = .WaitNotify := (h7.2 hd).1
-      rw [hb.2] at h1; cases h1
   have how : c.oneway = false := by
     cases ho : c.oneway with
     | false => rfl
@@ -44,59 +28,101 @@ theorem backoff_facts (c : Cfg) (ar aq : Nat) (s : S) (h : Inv c ar aq s) (hb : 
   have hfwd : fwdPhase s.phase = true := by simp [hb.2, fwdPhase]
   have h18 := h.k18 hcl hfwd
   simp only [how, Bool.false_eq_true, false_and, false_or] at h18
-  refine ⟨hcl, hnd, h7.1, h26.2.2.2, h26.1, ?_, how, h.k25 hcl how h18.2.1, h18.2.1⟩
-  intro hu
-  cases hur : s.upReset with
-  | false => rfl
-  | true =>
-    have hg := h26.2.1 hur
-    have := h18.2.2.2.1 hg
-    rw [hu] at this; cases this
+  refine ⟨hcl, h7.1, h26.2.2.2, h26.1, h26.2.1, h26.2.2.1, how, h.k25 hcl how h18.2.1, h18.2.1, h.k23 hcl (Or.inr hb.2),
+    h.k16 hcl (by simp [hb.2, upPhase]), fun hd => ?_⟩
+  obtain ⟨_, _, t1, t2, t3, _, _, t4⟩ := h7.2 hd
+  exact ⟨t1, t2, t3, t4⟩
 
-/-- **an accepted `TerminateStream` during the back-off**: the call is accepted exactly when no response headers are stored
-and the response slot is free; it leaves the local reply pending (`direct`), the worker still in the Retry phase, and writes
-nothing to the trace (the detached upstream request owns no client stream: nothing to reset) -/
-theorem terminateB_spec (c : Cfg) (ar aq : Nat) (s : S) (code : Nat) (h : Inv c ar aq s) (hb : backoff s = true) :
-    let s2 := terminateB c s code
-    s2.trace = s.trace ∧ s2.streams = s.streams ∧ s2.phase = .Retry ∧ s2.running = true ∧ s2.cleaned = false ∧
-    s2.downReset = s.downReset ∧ s2.pass = 0 ∧
-    (s2.direct = true ↔ (s.resp.isSome = false ∧ s.urr = false)) ∧
-    (s2.direct = true → s2.upReset = false ∧ s2.respCode = code ∧ s2.resp = some ⟨false, false⟩) := by
-  obtain ⟨hcl, hnd, _, hup, _, hur, _, hpass, _⟩ := backoff_facts c ar aq s h hb
+/-- the back-off is a state in which the worker is asleep: the asynchronous `TerminateStream` is delivered there -/
+theorem asleep_of_backoff {s : S} (hb : backoff s = true) : asleep s = true := by simp [asleep, hb]
+
+/-- **an asynchronous `TerminateStream` during the back-off** (label `terminate`, regenerated program `Gen.ProxyTerminate`): the
+call is accepted exactly when no response headers are stored and the response slot is free; it leaves the local reply pending
+(`direct`), the worker still asleep in the Retry phase, and writes nothing to the trace (the detached upstream request owns no
+client stream: nothing to reset) -/
+theorem terminate_backoff_spec (c : Cfg) (ar aq : Nat) (s : S) (code : Nat) (h : Inv c ar aq s) (hb : backoff s = true) :
+    let s2 := terminateL c s code
+    s2.trace = s.trace ∧ s2.streams = s.streams ∧ backoff s2 = true ∧ s2.cleaned = false ∧
+    s2.downReset = s.downReset ∧
+    (s2.direct = true ↔ (s.direct = true ∨ (s.resp.isSome = false ∧ s.urr = false))) ∧
+    (s.direct = false → s2.direct = true → s2.upReset = false ∧ s2.respCode = code ∧ s2.resp = some ⟨false, false⟩) := by
+  obtain ⟨hcl, _, hup, _, hur, _, _, _, _, _, _, hdf⟩ := backoff_facts c ar aq s h hb
   have hb' := hb
   simp only [backoff, Bool.and_eq_true, beq_iff_eq] at hb'
-  simp only [terminateB, hb, Bool.not_true, Bool.false_eq_true, if_false]
-  simp only [Gen.ProxyTerminate.terminateStream, Gen.ProxyTerminate.claim, Gen.ProxyTerminate.commit, termOps, id,
-    beq_self_eq_true, Bool.not_true, Bool.false_eq_true, if_false, hcl]
+  simp only
+  rw [terminateL_eq]
+  rw [if_neg (by simp [asleep_of_backoff hb])]
   by_cases hr : s.resp.isSome = true
-  · simp [hr, hnd, hb'.1, hb'.2, hcl, hpass]
-  · simp only [hr, if_false]
+  · rw [if_pos hr]
+    refine ⟨rfl, rfl, hb, hcl, rfl, ?_, fun hd hd2 => by rw [hd] at hd2; cases hd2⟩
+    simp [hr]
+  · rw [if_neg hr, if_neg (by simp [hcl])]
+    have hnd : s.direct = false := by
+      cases hd : s.direct with
+      | false => rfl
+      | true => exact absurd (hdf hd).2.2.1 hr
     by_cases hu : s.urr = true
-    · simp [hu, hr, hnd, hb'.1, hb'.2, hcl, hpass]
-    · have hu' : s.urr = false := by simpa using hu
-      have hur' := hur hu'
-      simp [hu, hr, resetUpstream, curStream, hup, sendHijack, sendNotify, orFlag, hb'.1, hb'.2, hcl, hpass, hur',
-        applyEff, hijackDataEff, hijackTrailersEff, Gen.ProxyReply.hijackData, Gen.ProxyReply.hijackTrailers, heldData, heldTrailers]
+    · rw [if_pos hu]
+      refine ⟨rfl, rfl, hb, hcl, rfl, ?_, fun _ hd2 => by rw [hnd] at hd2; cases hd2⟩
+      simp [hu, hnd]
+    · rw [if_neg hu]
+      have hu' : s.urr = false := by simpa using hu
+      have hur' : s.upReset = false := by
+        cases hh : s.upReset with
+        | false => rfl
+        | true => have := (hur hh).2; rw [hu'] at this; cases this
+      have hr' : s.resp.isSome = false := by simpa using hr
+      simp [terminateAcc, resetUpstream, curStream, hup, backoff, hb'.1, hb'.2, hcl, hur', hr', hu']
 
-/-- **the Retry pass with a pending local reply creates no upstream attempt** (needs the regenerated guard of `doRetry`):
-for ANY state in the Retry phase with `directResponse` set (no reset pending: the client has not left meanwhile), one worker step leaves the client streams' number and the
-attempt events of the trace as they are, and the worker does not stay in the Retry phase -/
-theorem workB_direct_no_attempt (c : Cfg) (s : S) (hrun : s.running = true) (hp : s.phase = .Retry) (hd : s.direct = true)
-    (hcl : s.cleaned = false) (hur : s.upReset = false) (hdr : s.downReset = false) :
-    (workB c s).streams.length = s.streams.length ∧
-    (workB c s).trace.filter attemptEv = s.trace.filter attemptEv ∧
-    (workB c s).phase ≠ .Retry := by
-  have hskip : Gen.ProxyPhase.retrySkipsOnDirect = true := by decide
-  simp only [workB, hrun, hp, beq_self_eq_true, Bool.and_self, if_true, doRetryB, hskip, hd]
-  unfold finishPhase
-  rw [processError_spec]
-  simp only [hcl, Bool.false_eq_true, if_false, hur, peTail, hd, if_true]
-  simp only [hdr, Bool.false_eq_true, if_false]
-  by_cases ho : c.oneway = true
-  · simp [ho, reenter, retryKeepsBudget, loopBudget]
-    split <;> simp
-  · simp only [ho, Bool.false_eq_true, if_false, hp]
-    simp [reenter, retryKeepsBudget, loopBudget]
-    split <;> simp
+/-- **the wake-up with a pending local reply creates no upstream attempt** (needs the regenerated guard of `doRetry`:
+`if s.directResponse { return }` after the sleep): for ANY state asleep in the back-off with `directResponse` set, one worker
+step leaves the client streams and the attempt events of the trace as they are, and the worker leaves the Retry phase —
+whether or not the client left meanwhile -/
+theorem wake_direct_no_attempt (c : Cfg) (s : S) (hb : backoff s = true) (hd : s.direct = true) (hcl : s.cleaned = false)
+    (hur : s.upReset = false) :
+    (work c s).streams.length = s.streams.length ∧ att (work c s).trace = att s.trace ∧
+    ((work c s).running = false ∨ (work c s).phase ≠ .Retry) := by
+  simp only [backoff, Bool.and_eq_true, beq_iff_eq] at hb
+  have hbw : bodyWait s = false := by simp [bodyWait, hb.2]
+  have ew : work c s = finishPhase c (doRetry c s) := by
+    unfold work
+    rw [if_neg (by simp [hb.1]), if_neg (by simp [hbw])]
+    simp only [hb.2]
+  have ed : doRetry c s = s := by rw [doRetry_eq, if_pos hd]
+  rw [ew, ed]
+  refine ⟨(noAtt_finishPhase c s).2, (noAtt_finishPhase c s).1, ?_⟩
+  · rw [finishPhase_eq, processError_spec]
+    simp only [hcl, Bool.false_eq_true, if_false, hur]
+    unfold peTail
+    by_cases hdr : s.downReset = true
+    · rw [if_pos hdr]
+      left
+      simp [finishOf, reenter_end]
+    · rw [if_neg hdr, if_pos hd]
+      simp only []
+      by_cases ho : c.oneway = true
+      · rw [if_pos ho]
+        right
+        simp only [finishOf, reenter_phase]
+        decide
+      · rw [if_neg ho, if_pos (by rw [hb.2]; decide)]
+        right
+        simp only [finishOf, reenter_phase]
+        decide
+
+/-- **the wake-up creates no attempt for a client that is gone, after a raised reset, or once the global timeout expired**
+(the regenerated guards: `upstreamRequest.appendHeaders` starts with `processDone()`, `doRetry` re-checks
+`globalTimeoutExpired`): one worker step from the back-off leaves the attempt events of the trace as they are -/
+theorem wake_no_attempt (c : Cfg) (s : S) (hb : backoff s = true)
+    (h : s.direct = true ∨ (s.globalExpired = true ∧ s.up.isSome = true) ∨ s.downReset = true ∨ s.upReset = true) :
+    att (work c s).trace = att s.trace := by
+  simp only [backoff, Bool.and_eq_true, beq_iff_eq] at hb
+  have hbw : bodyWait s = false := by simp [bodyWait, hb.2]
+  have ew : work c s = finishPhase c (doRetry c s) := by
+    unfold work
+    rw [if_neg (by simp [hb.1]), if_neg (by simp [hbw])]
+    simp only [hb.2]
+  rw [ew]
+  exact (NoAtt.trans (doRetry_no_attempt c s h).1 (noAtt_finishPhase c _)).1
 
 end MosnVerif.Model.Downstream
